@@ -591,7 +591,7 @@ HIST_MAX_STEPS = 9
 # never updated; the folder plugin writes ``result.scheme.parameters``, another object after loading).  Until that is
 # repaired the generator keeps the format for such saves ("keep_format"); the interpreter understands both, so the
 # witness (keep_format: false) replays.  Set to True after the repair (quiet with the proposed fix applied).
-HIST_REFORMAT_RELOADED = False
+HIST_REFORMAT_RELOADED = True
 ORIGIN_SUFFIX = {"fresh": "", "continued": "_continued", "reloaded": "_reloaded"}
 
 
@@ -1015,7 +1015,7 @@ PROPERTY = Property(
         "SavingOptions.data_format is 'nc' (its declared Literal); parameter_format csv and tsv",
         "history: whether a run can be continued from a handle is not a C17 matter (failed continue steps are skipped); a data filter naming variables that a loaded "
         "(filtered) result does not have is replaced by no filter; overwriting an earlier save passes allow_overwrite=True and leaves the report clause open (result.md of "
-        "the earlier save may remain); a loaded result is re-saved with the parameter format it was loaded from (finding D18e, see HIST_REFORMAT_RELOADED)",
+        "the earlier save may remain); a loaded result may be re-saved with another parameter format (D18e, fixed)",
     ],
     selfcheck=selfcheck,
 )
